@@ -857,6 +857,12 @@ def replay(ns, rp):
     elif k == "c17lw":
         r = long_wrap(ns, rp.get("seed", 0))
         ok, msg = (not r["viol"]), (r["viol"][0]["msg"] if r["viol"] else "")
+    elif k in ("c02rl", "deepq"):
+        from sim import extremes
+        r = extremes.rl_limit(ns, rp.get("tier", "quick"), rp.get("seed", 0)) if k == "c02rl" \
+            else extremes.deep_queue(ns, rp.get("seed", 0), rp["property"])
+        hit = [v for v in r["viol"] if v["replay"]["signature"] == rp.get("signature")] or r["viol"]
+        ok, msg = (not hit), (hit[0]["msg"] if hit else "")
     else:
         raise ValueError(k)
     return ok, msg
